@@ -33,7 +33,7 @@ mk() {
 ALL='{"left", "right", "both"}'
 # ---- quick models (exhaustive)
 mk MC_Nbs_q_u22n3   3 2 2 '{0, 1, 2}' '{1, 2}'    '{8}'     '{"right"}' FALSE 1 TRUE  FALSE
-mk MC_Nbs_q_u22n4k2 4 2 2 '{0, 1}'    '{1, 2, 6}' '{4}'     '{"both"}' FALSE 2 FALSE FALSE
+mk MC_Nbs_q_u22n4k2 4 2 2 '{0, 1}'    '{1, 6}'    '{4}'     "$ALL" FALSE 2 FALSE FALSE
 mk MC_Nbs_q_u23n3   3 2 3 '{0, 1}'    '{1, 3}'    '{12}'    '{"left", "both"}'  FALSE 1 TRUE  FALSE
 mk MC_Nbs_q_p22n4   4 2 2 '{0, 1, 2}' '{1, 6}'    '{8}'     "$ALL" TRUE  1 TRUE  FALSE
 mk MC_Nbs_q_p22n4k2 4 2 2 '{0, 1}'    '{1, 2, 6}' '{4}'     '{"left", "both"}' TRUE  2 FALSE FALSE
